@@ -78,7 +78,11 @@ def task_bdd(t):
     passes = 2 if ctx == 'K3' else 1
     F = U.full
     for p in range(passes):
+        _decoy = sweep.Decoy(names, twin_of=m)
         for k, fu in enumerate(mine):
+            _bad = _decoy.poke()
+            if _bad:
+                rec('second-manager:' + _bad, _bad, dict(task=t))
             if focus is not None and fu != focus:
                 continue
             u = refs[fu]
